@@ -175,17 +175,27 @@ def stftTimes (t0 step : Rat) (nstep : Int) (cnt : Nat) : List Rat :=
 def stftFreqs (step : Rat) (nps : Int) : List Rat :=
   (List.range (nps / 2 + 1).toNat).map fun (k : Nat) => (k : Rat) * (1 / step) / (nps : Rat)
 
+/-- the window length `compute_spectrogram` hands to scipy and computes its advertised steps from:
+    the repaired code (fix C15-3, `clamp = true`) clamps the requested `nperseg` to the number of
+    audio samples, `nperseg = min(nperseg, audio.sizes["time"])`; before that repair
+    (`clamp = false`) it used the requested one -/
+def stftClamp (clamp : Bool) (req : Int) (len : Nat) : Int := if clamp then min req (len : Int) else req
+
 /-- axes of `compute_spectrogram(audio, w, h)` for an audio array of `len` samples whose time
     axis starts at `t0` and advertises `step`.
-    `samplerate = 1/step`, `nperseg = int(w·samplerate)`, `noverlap = int((w−h)·samplerate)`;
-    scipy (`boundary="zeros"`, `padded=True`): shrinks `nperseg` to the input length, extends the
-    signal by `nperseg//2` on both sides, pads to a whole number of hops, and returns
-    `k·(nperseg − noverlap)/fs` for each segment and `k·fs/nperseg`, `k ≤ nperseg//2`.
+    `samplerate = 1/step`, `nperseg = min(int(w·samplerate), len)` (the clamp of fix C15-3),
+    `noverlap = int((w−h)·samplerate)`;
+    scipy (`boundary="zeros"`, `padded=True`): shrinks `nperseg` to the input length (a no-op once
+    the code has clamped it), rejects `noverlap ≥ nperseg`, extends the signal by `nperseg//2` on
+    both sides, pads to a whole number of hops, and returns `k·(nperseg − noverlap)/fs` for each
+    segment and `k·fs/nperseg`, `k ≤ nperseg//2`.
     `pinned = true`: the code of the pinned tree, which advertises the *requested* hop `h`;
     `pinned = false`: the repaired code (fix C15-1), which advertises the realised hop
-    `(nperseg − noverlap)/samplerate` (= `(nperseg − noverlap)·step`). -/
-def stftAxesGen (pinned : Bool) (len : Nat) (t0 step w h : Rat) : Except AErr SpecAxes :=
-  let nperseg := stftNperseg step w
+    `(nperseg − noverlap)/samplerate` (= `(nperseg − noverlap)·step`).
+    `clamp = false`: the code before fix C15-3, whose advertised steps refer to the *requested*
+    `nperseg` although scipy uses `min nperseg len`; `clamp = true`: the repaired code. -/
+def stftAxesGen (pinned clamp : Bool) (len : Nat) (t0 step w h : Rat) : Except AErr SpecAxes :=
+  let nperseg := stftClamp clamp (stftNperseg step w) len
   let noverlap := stftNoverlap step w h
   if len = 0 then .error .value
   else if nperseg < 1 then .error .value
@@ -198,8 +208,12 @@ def stftAxesGen (pinned : Bool) (len : Nat) (t0 step w h : Rat) : Except AErr Sp
             if pinned then h else ((nperseg - noverlap : Int) : Rat) / (1 / step)⟩,
            ⟨stftFreqs step nps, 1 / step / (nperseg : Rat)⟩⟩
 
-def stftAxes := stftAxesGen false
-def stftAxesPinned := stftAxesGen true
+/-- the code that exists (fixes C15-1 and C15-3) -/
+def stftAxes := stftAxesGen false true
+/-- the pinned tree (before fix C15-1; no clamp either) -/
+def stftAxesPinned := stftAxesGen true false
+/-- pre-repair behaviour: after fix C15-1, before fix C15-3 (the requested `nperseg` is advertised) -/
+def stftAxesUnclamped := stftAxesGen false false
 
 /-! ### what the code itself computes before / after it calls the libraries
 
@@ -296,7 +310,27 @@ structure StftPlan where
 def StftPlan.toTuple (p : StftPlan) : Rat × Rat × Rat × Rat × Rat × Rat :=
   (p.fs, (p.nperseg : Rat), (p.noverlap : Rat), p.freqAdv, p.shift, p.timeAdv)
 
-def stftPlan (step w h t0 : Rat) : StftPlan :=
+/-- `compute_spectrogram` of an audio array of `len` samples (`audio.sizes["time"]`): the requested
+    `nperseg = int(w·fs)` clamped to `len` (fix C15-3); both advertised steps are computed from the
+    clamped one -/
+def stftPlan (step w h t0 : Rat) (len : Nat) : StftPlan :=
+  let fs : Rat := 1 / step
+  let nperseg : Int := min (truncZ (w * fs)) (len : Int)
+  let noverlap : Int := truncZ ((w - h) * fs)
+  ⟨fs, nperseg, noverlap, fs / (nperseg : Rat), t0, ((nperseg : Rat) - (noverlap : Rat)) / fs⟩
+
+/-- the same plan in the form the symbolic trace produces it: every quantity a rational, the number
+    of audio samples `n` an arbitrary rational (the tie is proved for all of them;
+    `Proofs/C15.lean: C15_stft_plan_tuple` specialises it to `n = len`) -/
+def stftPlanTuple (step w h t0 n : Rat) : Rat × Rat × Rat × Rat × Rat × Rat :=
+  let fs : Rat := 1 / step
+  let nperseg : Rat := if n < ((truncZ (w * fs) : Int) : Rat) then n else ((truncZ (w * fs) : Int) : Rat)
+  let noverlap : Rat := ((truncZ ((w - h) * fs) : Int) : Rat)
+  (fs, nperseg, noverlap, fs / nperseg, t0, (nperseg - noverlap) / fs)
+
+/-- pre-repair behaviour (before fix C15-3): the plan without the clamp — scipy is handed the
+    requested `nperseg` and both advertised steps refer to it -/
+def stftPlanUnclamped (step w h t0 : Rat) : StftPlan :=
   let fs : Rat := 1 / step
   let nperseg : Int := truncZ (w * fs)
   let noverlap : Int := truncZ ((w - h) * fs)
